@@ -816,3 +816,140 @@ M("C09-publish-dup-bit", "C09", [(WIRE, '''        if self.dup {
         }
         flags''')],
   ["C09/bits/publish/dup"])
+
+# ---------------------------------------------------------------------------------------------- C19
+M("C19-will-delay-rejected", "C19", [(PROPS, '''                | (PropertyContext::Will, PropertyIdentifier::WillDelayInterval)
+''', '''''')],
+  ["C19/table/Will/WillDelayInterval"])
+M("C19-topic-alias-zero-accepted", "C19", [(PROPS, '''            Property::TopicAlias(value) => *value != 0,
+''', '''''')],
+  ["C19/value/TopicAlias"])
+M("C19-server-reference-on-publish", "C19", [(PROPS, '''            ) | (PropertyContext::Publish, PropertyIdentifier::TopicAlias)''', '''            ) | (
+                PropertyContext::Publish,
+                PropertyIdentifier::TopicAlias | PropertyIdentifier::ServerReference,
+            )''')],
+  ["C19/table/Publish/ServerReference"])
+M("C19-publish-wrong-context", "C19", [(OPS, '''        if !properties.valid_for(PropertyContext::Publish) {''', '''        if !properties.valid_for(PropertyContext::Will) {''')],
+  ["C19/order/publish/context"])
+M("C19-subscribe-validates-late", "C19", [(OPS, '''        if !Properties::from_slice(properties).valid_for(PropertyContext::Subscribe) {
+            return Err(Error::InvalidRequest);
+        }
+        self.flush_outbound().await?;
+        self.require_retained_slot()?;
+
+        let packet_id = self.session.data.next_packet_id();''', '''        self.flush_outbound().await?;
+        self.require_retained_slot()?;
+
+        let packet_id = self.session.data.next_packet_id();
+        if !Properties::from_slice(properties).valid_for(PropertyContext::Subscribe) {
+            return Err(Error::InvalidRequest);
+        }''')],
+  ["C19/order/subscribe/validate-first"])
+M("C19-payload-format-two", "C19", [(PROPS, '''            | Property::SharedSubscriptionAvailable(value) => *value <= 1,''', '''            | Property::SharedSubscriptionAvailable(value) => *value <= 2,''')],
+  ["C19/value/PayloadFormatIndicator"])
+M("C19-subscription-id-zero", "C19", [(PROPS, '''            Property::SubscriptionIdentifier(value) => (1..=MQTT_VARINT_MAX).contains(value),''', '''            Property::SubscriptionIdentifier(value) => (0..=MQTT_VARINT_MAX).contains(value),''')],
+  ["C19/value/SubscriptionIdentifier"])
+M("C19-header-requested-qos", "C19", [(OPS, '''        let qos = match self.session.runtime.max_qos {
+            Some(max_qos) if self.session.downgrade_qos && qos > max_qos => max_qos,
+            _ => qos,
+        };
+        let packet_id = (qos > QoS::AtMostOnce).then(|| self.session.data.next_packet_id());''', '''        let requested = qos;
+        let qos = match self.session.runtime.max_qos {
+            Some(max_qos) if self.session.downgrade_qos && qos > max_qos => max_qos,
+            _ => qos,
+        };
+        let packet_id = (requested > QoS::AtMostOnce).then(|| self.session.data.next_packet_id());''')],
+  ["C19/qos/identifier-decision"])
+M("C19-unsubscribe-empty-accepted", "C19", [(OPS, '''        if topics.is_empty() {
+            return Err(Error::InvalidRequest);
+        }
+        if !Properties::from_slice(properties).valid_for(PropertyContext::Unsubscribe) {''', '''        if !Properties::from_slice(properties).valid_for(PropertyContext::Unsubscribe) {''')],
+  ["C19/order/unsubscribe/empty-list"])
+M("C19-valid-for-skips-user-props", "C19", [(PROPS, '''        self.iter()
+            .all(|property| property.is_ok_and(|property| property.is_valid_for(context)))''', '''        match &self.inner {
+            PropertiesData::Slice(props) => props.iter().all(|p| p.is_valid_for(context)),
+            PropertiesData::WithCorrelation { correlation, .. } => correlation.is_valid_for(context),
+            PropertiesData::Encoded(_) => self
+                .iter()
+                .all(|property| property.is_ok_and(|property| property.is_valid_for(context))),
+        }''')],
+  ["C19/coverage/valid_for/WithCorrelation"])
+M("C19-downgrade-always", "C19", [(OPS, '''            Some(max_qos) if self.session.downgrade_qos && qos > max_qos => max_qos,''', '''            Some(max_qos) if qos > max_qos => max_qos,''')],
+  ["C19/qos/downgrade-guard"])
+M("C19-will-validated-as-publish", "C19", [(WILL, '''        if !property.is_valid_for(PropertyContext::Will) {''', '''        if !property.is_valid_for(PropertyContext::Publish) {''')],
+  ["C19/order/will/context"])
+
+# ---------------------------------------------------------------------------------------------- C20
+MCMOD = "src/mqtt_client/mod.rs"
+PUB = "src/publication.rs"
+M("C20-shared-iterator", "C20", [(MCMOD, '''        Some(ResponseTarget {
+            topic: self.response_topic()?,
+            correlation_data: self.correlation_data(),
+        })''', '''        let mut iter = self.properties.iter();
+        let topic = iter.find_map(|prop| match prop {
+            Ok(crate::Property::ResponseTopic(topic)) => Some(topic),
+            _ => None,
+        })?;
+        let correlation_data = iter.find_map(|prop| match prop {
+            Ok(crate::Property::CorrelationData(data)) => Some(data),
+            _ => None,
+        });
+        Some(ResponseTarget {
+            topic,
+            correlation_data,
+        })''')],
+  ["C20/target/correlation"])
+M("C20-reply-to-own-topic", "C20", [(MCMOD, '''        Some(ResponseTarget {
+            topic: self.response_topic()?,''', '''        self.response_topic()?;
+        Some(ResponseTarget {
+            topic: self.topic,''')],
+  ["C20/target/topic"])
+M("C20-with-properties-drops-correlation", "C20", [(PROPS, '''            PropertiesData::WithCorrelation { correlation, .. } => Self {
+                inner: PropertiesData::WithCorrelation {
+                    correlation,
+                    properties,
+                },
+            },
+            PropertiesData::Slice(_) | PropertiesData::Encoded(_) => Self::from_slice(properties),''', '''            PropertiesData::WithCorrelation { correlation, .. } if properties.is_empty() => Self {
+                inner: PropertiesData::WithCorrelation {
+                    correlation,
+                    properties,
+                },
+            },
+            _ => Self::from_slice(properties),''')],
+  ["C20/publication/with_properties-keeps-correlation"])
+M("C20-owned-truncates-correlation", "C20", [(PUB, '''            correlation_data: self
+                .correlation_data
+                .map(Vec::try_from)
+                .transpose()
+                .map_err(|_| ResourceError::BufferTooSmall)?,''', '''            correlation_data: self
+                .correlation_data
+                .map(|data| Vec::try_from(&data[..data.len().min(CORRELATION)]))
+                .transpose()
+                .map_err(|_| ResourceError::BufferTooSmall)?,''')],
+  ["C20/owned/no-truncation"])
+M("C20-first-correlation-ignores-errors-wrongly", "C20", [(PROPS, '''    pub fn correlation_data(&'a self) -> Option<&'a [u8]> {
+        self.iter().find_map(|prop| match prop {
+            Ok(Property::CorrelationData(data)) => Some(data),
+            _ => None,
+        })
+    }''', '''    pub fn correlation_data(&'a self) -> Option<&'a [u8]> {
+        self.iter().find_map(|prop| match prop {
+            Ok(Property::CorrelationData(data)) => Some(data),
+            Ok(Property::AuthenticationData(data)) => Some(data),
+            _ => None,
+        })
+    }''')],
+  ["C20/lookup/correlation_data/payload"])
+M("C20-owned-publication-skips-correlation", "C20", [(PUB, '''        let mut publication = Publication::new(self.topic.as_str(), payload);
+        if let Some(data) = self.correlation_data.as_deref() {
+            publication = publication.correlate(data);
+        }
+        publication''', '''        let mut publication = Publication::new(self.topic.as_str(), payload);
+        if let Some(data) = self.correlation_data.as_deref() {
+            if !data.is_empty() {
+                publication = publication.correlate(data);
+            }
+        }
+        publication''')],
+  ["C20/publication/OwnedResponseTarget/correlation"])
